@@ -1094,7 +1094,30 @@ func c14PooledBody(c *Ctx, ix *PkgIndex, m otlpMod) {
 			return true
 		}
 		recv, meth := methodCall(info, call)
-		if meth == nil || recv == nil || !pooled[objOf(info, recv)] {
+		if meth == nil || recv == nil {
+			return true
+		}
+		// the pooled object itself or something it holds (gz.buf.Bytes())
+		root := unparen(recv)
+		for {
+			switch x := root.(type) {
+			case *ast.SelectorExpr:
+				if s := info.Selections[x]; s != nil && s.Kind() == types.FieldVal {
+					root = unparen(x.X)
+					continue
+				}
+			case *ast.StarExpr:
+				root = unparen(x.X)
+				continue
+			case *ast.UnaryExpr:
+				if x.Op == token.AND {
+					root = unparen(x.X)
+					continue
+				}
+			}
+			break
+		}
+		if !pooled[objOf(info, root)] {
 			return true
 		}
 		switch meth.FullName() {
